@@ -106,7 +106,7 @@ def agree(case, o):
     # the other forms in which the library itself serialises (argument combinations of its dump
     # sites, the JSON text of the stdio writer), a repeated dump, a repeated validation of the same dict
     pv, fv = dict(p.get("variants") or {}), dict(f.get("variants") or {})
-    for k in ("second", "from_instance", "input_intact", "reuse_error"):
+    for k in ("second", "from_instance", "fresh_after_instances_edited", "input_intact", "reuse_error", "value_subclasses", "enum_members"):
         pv[k], fv[k] = p.get(k), f.get(k)
     for k in sorted(pv):
         d = first_diff(pv.get(k), fv.get(k))
@@ -460,6 +460,15 @@ class ModelCases(Suite):
                     w[G.wire(f)] = val
                     if py_conforms(S, t_self, w):
                         out.append({"cls": cid, "mode": "limit", "wire": w})
+            # aliased models nested under alias-free parents: every optional member present at every level,
+            # so that each aliased member reachable from the class is on the wire at least thrice
+            if not G.aliased(cid) and self.reaches_alias(S, cid):
+                G.force_all = True
+                try:
+                    for _ in range(3):
+                        out.append({"cls": cid, "mode": "nested-alias", "wire": G.obj(cid, rng, extras="none")})
+                finally:
+                    G.force_all = False
             # aliased members populated; the attribute name of an aliased member as a member name
             for f in G.aliased(cid):
                 for _ in range(2 * seeds):
@@ -487,16 +496,30 @@ class ModelCases(Suite):
                         out.append({"cls": cid, "mode": "reorder", "wire": G.obj(cid, rng, extras="random")})
         if budget == "quick":
             # the other wire forms / reuse observations (7 more dumps, 2 more validations per backend):
-            # every directed case, every third of the bulk modes in the quick tier, all in thorough
+            # every directed case, every sixth of the bulk modes in the quick tier, all in thorough
             n = 0
             for c in out:
                 if c["mode"] in ("random", "none", "magic"):
                     n += 1
-                    if n % 3:
+                    if n % 6:
                         c["forms"] = False
         return out
 
     attr_name_cases = True
+
+    @staticmethod
+    def reaches_alias(S, cid, seen=None):
+        seen = seen or set()
+        if cid in seen or cid not in S:
+            return False
+        seen.add(cid)
+        import json as _json
+        import re as _re
+        for f in S[cid]["fields"]:
+            for r in _re.findall(r'"cls": "([^"]+)"', _json.dumps(f["ty"])):
+                if any(g["alias"] and g["alias"] != g["name"] for g in S.get(r, {"fields": []})["fields"]) or ModelCases.reaches_alias(S, r, seen):
+                    return True
+        return False
 
     def impl_batch(self, cases):
         return schema_h.both("validate", [{"cls": c["cls"], "wire": c["wire"], "forms": c.get("forms", True)} for c in cases])
@@ -584,9 +607,18 @@ def deep(v):
 
 
 class FreshOrder(Suite):
-    """Sequences of validations, each sequence in its own freshly started pair of worker processes:
-    same-named classes in both orders, and seeded shuffles of all protocol classes.  What a backend
-    carries from one call to the next must not change what a later call returns."""
+    """Sequences of operations, each sequence in its own freshly started pair of worker processes:
+    * same-named classes in both orders, seeded shuffles of all protocol classes;
+    * `host-aliases`: a host module that defines typing aliases named like the model classes is
+      imported first; `probe-classes`: host models named like the library's, with the same attribute
+      names but other types and aliases, are defined and used first — and once more in between;
+    * `lazy-import`: nothing of the package is imported up front, each class's module is imported when
+      first needed, in a shuffled order;
+    * `failures`: the same invalid object two, three, four times, then a valid one, then again;
+    * `env-skip-validation`: the library's own `SKIP_JSONRPC_VALIDATION` option, crossed with valid
+      and malformed envelopes.
+    What a backend carries from one call to the next, and what else lives in the process, must not
+    change what a later call returns."""
 
     name = "fresh-order"
     uses_model = False
@@ -600,20 +632,36 @@ class FreshOrder(Suite):
             names.setdefault(S[cid]["name"], []).append(cid)
         groups = [ids for _, ids in sorted(names.items()) if len(ids) > 1]
 
+        def step(cid, wire, valid=True):
+            # sequences are about state and order: the plain observation (accept, tree, dump), not the other forms
+            return {"op": "validate", "cls": cid, "wire": wire, "valid": valid, "forms": False,
+                    "where": [S[cid]["module"], S[cid]["name"]]}
+
         def objs(cid, rng, n):
             full = {f["name"] for f in G.optional_fields(cid)}
-            res = [{"cls": cid, "wire": G.obj(cid, rng, present=full, extras="none")}]
+            res = [step(cid, G.obj(cid, rng, present=full, extras="none"))]
             for _ in range(n - 1):
-                res.append({"cls": cid, "wire": G.obj(cid, rng, extras="random")})
+                res.append(step(cid, G.obj(cid, rng, extras="random")))
             return res
 
         def users(ids):
             """classes whose fields refer to one of `ids` (a container exercises the nested class)"""
+            import json as _json
+
             res = []
             for cid in protocol_classes(S):
-                if cid not in ids and any(("\"cls\": \"%s\"" % i) in __import__("json").dumps(S[cid]["fields"]) for i in ids):
+                if cid not in ids and any(('"cls": "%s"' % i) in _json.dumps(S[cid]["fields"]) for i in ids):
                     res.append(cid)
             return res
+
+        def all_classes(rng, shuffle=True, n=1):
+            ids = protocol_classes(S)
+            if shuffle:
+                rng.shuffle(ids)
+            steps = []
+            for cid in ids:
+                steps += objs(cid, rng, n)
+            return steps
 
         for ids in groups:
             for order in (ids, list(reversed(ids))):
@@ -623,40 +671,104 @@ class FreshOrder(Suite):
                     steps += objs(cid, rng, 3)
                     for u in users([cid]):
                         steps += objs(u, rng, 2)
-                out.append({"steps": steps, "order": [S[c]["module"].split(".")[-2] + "." + S[c]["name"] for c in order]})
+                out.append({"seq": "order", "steps": steps, "order": [S[c]["module"].split(".")[-2] + "." + S[c]["name"] for c in order]})
         for k in range(2 if budget == "quick" else 8):
             rng = ctx.sub_rng(self.name, "shuffle", k)
-            ids = protocol_classes(S)
-            rng.shuffle(ids)
-            steps = []
-            for cid in ids:
-                steps += objs(cid, rng, 1)
-            out.append({"steps": steps, "order": ["shuffle-%d" % k]})
+            out.append({"seq": "order", "steps": all_classes(rng), "order": ["shuffle-%d" % k]})
+        # a host module with typing aliases named like the model classes
+        rng = ctx.sub_rng(self.name, "host-aliases")
+        cls_names = sorted({S[c]["name"] for c in protocol_classes(S)})
+        out.append({"seq": "host-aliases", "order": ["host-aliases"],
+                    "steps": [{"op": "setup", "kind": "host-aliases", "names": cls_names}] + all_classes(rng)})
+        # host models named like the library's, same attribute names: before, and again in between
+        rng = ctx.sub_rng(self.name, "probe-classes")
+        probe = {"op": "setup", "kind": "probe-classes",
+                 "classes": [{"name": S[c]["name"], "fields": [f["name"] for f in S[c]["fields"]]} for c in protocol_classes(S)]}
+        out.append({"seq": "probe-classes", "order": ["probe-classes"], "steps": [probe] + all_classes(rng) + [probe] + all_classes(rng)})
+        out.append({"seq": "probe-classes", "order": ["probe-classes-after"], "steps": all_classes(rng) + [probe] + all_classes(rng)})
+        # import order: modules imported on demand
+        for k in range(2 if budget == "quick" else 6):
+            rng = ctx.sub_rng(self.name, "lazy", k)
+            out.append({"seq": "lazy-import", "order": ["lazy-import-%d" % k], "lazy": True, "steps": all_classes(rng)})
+        # the same failure repeated, then success, then the failure again
+        rng = ctx.sub_rng(self.name, "failures")
+        steps = []
+        some = [c for c in protocol_classes(S) if any(G.on_wire_required(c, f) and not G.is_tag(f) for f in S[c]["fields"])]
+        for cid in (some if budget != "quick" else rng.sample(some, min(16, len(some)))):
+            good = G.obj(cid, rng, extras="random")
+            req = [G.wire(f) for f in S[cid]["fields"] if G.on_wire_required(cid, f) and not G.is_tag(f)]
+            missing = {k2: v for k2, v in good.items() if k2 != req[0]}
+            wrong = {**good, req[0]: {"not": ["the", "declared", "type"]}} if S[cid]["fields"][0]["ty"]["k"] != "any" else missing
+            for bad in (missing, wrong):
+                for reps in (2, 3):
+                    steps += [step(cid, bad, valid=False)] * reps + [step(cid, good)]
+                steps += [step(cid, bad, valid=False), step(cid, good), step(cid, good)]
+        out.append({"seq": "failures", "order": ["failures"], "steps": steps})
+        # the library's own option SKIP_JSONRPC_VALIDATION, crossed with valid and malformed envelopes
+        rng = ctx.sub_rng(self.name, "env")
+        envs = []
+        for idv in (1, "1", 0, "", "a"):
+            envs += [{"jsonrpc": "2.0", "id": idv, "method": "m"}, {"jsonrpc": "2.0", "id": idv, "result": {}},
+                     {"jsonrpc": "2.0", "id": idv, "error": {"code": 1, "message": "m"}},
+                     {"jsonrpc": "2.0", "id": idv}, {"jsonrpc": "2.0", "id": idv, "result": {}, "error": {"code": 1, "message": "m"}}]
+        envs += [{"jsonrpc": "2.0", "method": "n"}, {"jsonrpc": "2.0"}, {}]
+        for val in ("true", "TRUE", "false", "1"):
+            out.append({"seq": "env-skip-validation", "order": ["SKIP_JSONRPC_VALIDATION=" + val],
+                        "steps": [{"op": "setup", "kind": "env", "set": {"SKIP_JSONRPC_VALIDATION": val}}]
+                        + [{"op": "parse", "wire": w, "valid": False} for w in envs]
+                        + [step("JSONRPCMessage", w, valid=False) for w in envs if w]})
         return out
 
     def impl_batch(self, cases):
-        res = schema_h.fresh_both("validate", [[{"cls": st["cls"], "wire": st["wire"]} for st in c["steps"]] for c in cases])
+        res = schema_h.fresh_both("step", [c["steps"] for c in cases],
+                                  [({"VERIF_LAZY": "1"} if c.get("lazy") else None) for c in cases])
         return [{"steps": r} for r in res]
 
     def step_oracle(self, step, o):  # overridden per property
         return None
 
     def oracle(self, case, o):
+        seq = case.get("seq", "order")
         for i, (st, so) in enumerate(zip(case["steps"], o["steps"])):
-            r = self.step_oracle(st, so)
+            if st["op"] == "setup":
+                continue
+            r = None
+            if st["op"] == "validate" and st.get("valid", True):
+                r = self.step_oracle(st, so)
+            elif self.judge_agreement:
+                # invalid objects / envelopes under an option: the property does not say what must happen,
+                # only (C09) that with or without Pydantic the library does the same — accept/reject apart,
+                # which the property ties to VALID traffic only
+                p, f = so["pydantic"], so["fallback"]
+                if p.get("ok") and f.get("ok"):
+                    r = agree({"cls": st.get("cls", "message")}, so)
             if r is not None:
                 key, what, exp = r
+                if seq != "order":
+                    key = f"{seq}:{key.split(':')[0]}"
                 return (key, f"step {i + 1} of {len(case['steps'])} in a fresh process ({', '.join(case['order'])}): {what}", exp)
         return None
+
+    judge_agreement = False
 
     def kind(self, case, o):
         return "fresh-order/" + "+".join(case["order"])
 
     def shrink_candidates(self, case):
+        # every candidate costs a fresh pair of processes: halve first, single steps only when short
         st = case["steps"]
-        for i in range(len(st) - 1, -1, -1):
-            if len(st) > 1:
-                yield {**case, "steps": st[:i] + st[i + 1:]}
+        setups = [x for x in st if x["op"] == "setup"]
+        rest = [x for x in st if x["op"] != "setup"]
+        n = len(rest)
+        if n > 1:
+            yield {**case, "steps": setups + rest[-1:]}
+            yield {**case, "steps": setups + rest[n // 2:]}
+            yield {**case, "steps": setups + rest[: n // 2]}
+        if 1 < n <= 6:
+            for i in range(n - 1, -1, -1):
+                yield {**case, "steps": setups + rest[:i] + rest[i + 1:]}
+        if setups and n >= 1:
+            yield {**case, "steps": rest}
 
 
 class Constructors(Suite):
@@ -667,6 +779,7 @@ class Constructors(Suite):
 
     name = "constructors"
     uses_model = True
+    supplementary = True  # the model side is Gen/Builders (regenerated helpers): a difference is INFO, the oracle is core
     _gen = None
 
     def generated(self):
@@ -688,6 +801,8 @@ class Constructors(Suite):
                 return v["wire"]
             if "$tuple" in v:
                 return [Constructors.wire_args(x) for x in v["$tuple"]]
+            if "$sub" in v:
+                return v["value"]
             return {k: Constructors.wire_args(x) for k, x in v.items()}
         if isinstance(v, list):
             return [Constructors.wire_args(x) for x in v]
@@ -750,6 +865,10 @@ class Constructors(Suite):
             return {kk: self.arg(G, t["t"], rng, depth + 1, pname) for kk in rng.sample(schema_gen.ANY_KEYS, rng.randrange(0, 3))}
         if k == "str" and pname == "uri" :
             return "file://" + rng.choice(["/a", "/tmp/x y", "/", ""])
+        if k in ("str", "int") and depth == 0 and rng.random() < 0.3:
+            # a caller's str / int SUBCLASS instance or StrEnum / IntEnum member (marker types for ids, names)
+            v = G.value(t, rng, depth, {})
+            return {"$sub": rng.choice(["class", "enum"]), "value": v}
         if k == "float" and "priority" in pname:
             return rng.choice([0, 0.0, 1, 1.0, 0.5, 0.25])
         return G.value(t, rng, depth, {})
@@ -777,6 +896,17 @@ class Constructors(Suite):
                         continue
                     kwargs[p["name"]] = self.arg(G, p["ty"], rng, 0, p["name"])
                 out.append({"module": c["module"], "qual": c["qual"], "kwargs": kwargs})
+            # directed: every parameter that admits a string / an int given as a SUBCLASS instance and as an
+            # enum member whose value looks like the other type ("12" for a str, 1 for an int)
+            if not c.get("returns"):
+                for p in c["params"]:
+                    for leaf, val in (("str", "12"), ("int", 1)):
+                        if G.with_str(p["ty"], val, leaf) is None or p["name"] == "uri":
+                            continue
+                        for how in ("class", "enum"):
+                            kwargs = {q["name"]: self.arg(G, q["ty"], rng, 1, q["name"]) for q in c["params"] if not q["optional"]}
+                            kwargs[p["name"]] = G.with_str(p["ty"], {"$sub": how, "value": val}, leaf)
+                            out.append({"module": c["module"], "qual": c["qual"], "kwargs": kwargs})
         return out
 
     def impl_batch(self, cases):
@@ -798,6 +928,10 @@ class Constructors(Suite):
                 yield {**case, "kwargs": {**kw, k: y}}
 
 
+EXC_CLASSES = ["TypeError", "ValueError", "KeyError", "IndexError", "AttributeError", "RuntimeError", "RecursionError", "OSError",
+               "Exception", "ZeroDivisionError", "UnicodeError", "StopIteration", "AssertionError", "NotImplementedError", "BadStr"]
+
+
 class HelperFlows(Suite):
     """the remaining helper functions of types/content.py, types/tools.py, types/elicitation.py driven
     end to end under both backends: content predicates / content_to_dict / parse_content on dicts and
@@ -807,6 +941,7 @@ class HelperFlows(Suite):
     through a generated builder the Lean evaluation of that builder predicts the emitted object."""
 
     name = "helper-flows"
+    supplementary = True  # model side: the generated builder call_tool uses; the oracle is core
 
     def cases(self, ctx, budget):
         S = schema_h.schema()
@@ -834,6 +969,9 @@ class HelperFlows(Suite):
             rets += [("raise", sv) for sv in rng.sample(schema_gen.STRS, min(n, len(schema_gen.STRS)))] + [("raise", ""), ("raise", "%s {0}")]
             for k, v in rets:
                 out.append({"flow": "registry", "ret": {"kind": k, "value": v}})
+            # every builtin exception class a handler may raise, and one whose str() raises
+            for ec in EXC_CLASSES:
+                out.append({"flow": "registry", "ret": {"kind": "raise", "value": rng.choice(["boom", "", "%s", "'k'"]), "exc": ec}})
         if "ElicitationParams" in S:
             from .props.c09 import ID_SHAPES
             for i in range(2 * n):
@@ -845,6 +983,7 @@ class HelperFlows(Suite):
                 c = {"flow": "elicit-client", "message": msg}
                 if i % 3 == 0:
                     c["raise"] = rng.choice(schema_gen.STRS)
+                    c["exc"] = EXC_CLASSES[i % len(EXC_CLASSES)]
                 else:
                     c["data"] = rng.choice([{}, schema_gen.any_object(rng), {"confirmed": False}, {"": ""}])
                 out.append(c)
@@ -863,6 +1002,27 @@ class HelperFlows(Suite):
         for q in ["", "one", "a b c d e", "%s {0}\n", "x" * 500]:
             out.append({"flow": "example-tool", "arguments": {"query": q}})
         out.append({"flow": "example-tool", "arguments": {}})
+        if "Root" in S:
+            # helpers that keep models in containers (and may compare them): add, re-add the same value, the
+            # same OBJECT, a rename under the same uri, remove, clear — on two managers with equal uris
+            for i in range(max(2, n // 2)):
+                a = G.obj("Root", rng, present={"name"}, extras="none")
+                b = {**a, "name": a.get("name", "") + " renamed"}
+                c = G.obj("Root", rng, present=set(), extras="random")
+                ops = [{"op": "add", "root": a}, {"op": "add", "root": a}, {"op": "add-same-object"}, {"op": "add", "root": b},
+                       {"op": "add", "root": a, "mgr": 1}, {"op": "list", "id": i}, {"op": "add", "root": c}, {"op": "add", "root": b, "mgr": 1},
+                       {"op": "remove", "uri": a["uri"]}, {"op": "remove", "uri": a["uri"]}, {"op": "list", "id": "7", "mgr": 1},
+                       {"op": "add", "root": a}, {"op": "clear"}, {"op": "clear"}, {"op": "list"}]
+                out.append({"flow": "roots-manager", "ops": ops})
+        if "CompletionResult" in S:
+            bounds = sorted({0, 1, 99, 100, 101, 250} | {m_ for m_ in schema_h.magic().get("CompletionResult", {}).get("ints", []) if 0 <= m_ <= 1200})
+            for n_ in bounds:
+                out.append({"flow": "completion-provider", "n": n_, "argument": {"name": "a", "value": rng.choice(["", "v", "%s"])},
+                            "refs": [{"type": "ref/resource", "uri": "file:///x"}, {"type": "ref/prompt", "name": "p"},
+                                     {"type": "ref/prompt", "name": "unknown"}, {"type": "other"}]})
+        for inner in ("ok", "raise"):
+            for outer in ("wrap", "pass", "raise"):
+                out.append({"flow": "registry-reentrant", "inner": inner, "outer": outer, "inner_value": rng.choice([{"v": 1}, "text", {}])})
         if "EmbeddedResource" in S:
             import base64
             for raw in (b"", b"\x00", b"\xff\xfe binary \n", bytes(range(256)), b"x" * 3000):
@@ -888,8 +1048,13 @@ class HelperFlows(Suite):
         elif k == "other":
             name, args = "create_structured_tool_result", {"data": {"result": v}}
         elif k == "raise":
+            ec = case["ret"].get("exc", "ValueError")
+            if ec in ("BadStr", "KeyError", "StopIteration"):
+                return None  # str() of these is not the message text (KeyError quotes, BadStr raises)
+            if ec in ("OSError", "UnicodeError") :
+                pass
             name, args = "create_error_tool_result", {"error_message": "Tool execution error: " + v,
-                                                      "error_data": {"exception_type": "ValueError", "exception_message": v}}
+                                                      "error_data": {"exception_type": ec, "exception_message": v}}
         else:
             name, args = "create_error_tool_result", {"error_message": "Tool 'missing' not found"}
         return {"m": "schema", "op": "build", "module": mod, "name": name, "j": schema_h.enc(args)}
@@ -904,7 +1069,7 @@ class HelperFlows(Suite):
             return None if m["skip"] == "untranslated" else "model: " + str(m["skip"])
         for side in ("fallback", "pydantic"):
             r = o[side]
-            if r.get("ok") and not schema_h.same(r.get("emitted"), m["dump"]):
+            if r.get("ok") and "propagated" not in r and not schema_h.same(r.get("emitted"), m["dump"]):
                 return f"call_tool's result differs from the generated builder evaluated in the model ({side})"
         return None
 
@@ -947,13 +1112,17 @@ class HelperFlows(Suite):
                 pv = b["parse"].get("value") if fl == "content-kind" else b["parse"]
                 if bad is None and not schema_h.same(pv, em):
                     bad = "parse then dump differs from the serialised form"
-            elif fl in ("registry", "embedded-bytes", "example-tool"):
+            elif fl == "completion-provider":
+                for r_ in b.get("results", []):
+                    if "emitted" in r_ and not schema_h.same(r_.get("roundtrip", {}).get("dump"), r_["emitted"]):
+                        bad = f"a completion result does not round-trip: {str(r_.get('roundtrip'))[:100]}"
+            elif fl in ("registry", "embedded-bytes", "example-tool", "registry-reentrant") and "propagated" not in b:
                 rt = b.get("roundtrip", {})
                 if "dump" not in rt or not schema_h.same(rt["dump"], b["emitted"]):
                     bad = f"the emitted object does not round-trip through its class: {str(rt)[:120]}"
                 if fl == "embedded-bytes" and not b.get("blob_decodes"):
                     bad = "the blob does not decode to the bytes given"
-            elif fl == "elicit-client":
+            elif fl == "elicit-client" and "propagated" not in b:
                 resp = b["response"]
                 if b["envelope"].get("value") is None or not schema_h.same(b["envelope"]["value"], resp):
                     bad = f"the response envelope is not a lossless JSON-RPC message: {str(b['envelope'])[:120]}"
@@ -981,6 +1150,7 @@ class DeepValidate(Suite):
     never turned into a VIOLATION or a broken obligation by itself."""
 
     name = "deep-validate"
+    supplementary = True
     mismatches: list = []
 
     VALUES = [None, True, False, 0, 1, -7, 12, 2**40, 0.5, 1.5, "", "a", "12", "-3", "007", "true", "True", "YES", "on", "0", "no",
@@ -1058,3 +1228,75 @@ class DeepValidate(Suite):
 
     def nontrivial(self, case, o):
         return True
+
+
+class MemberKinds(Suite):
+    """Every declared member of every protocol class fed every JSON kind — null, bool, int, float, str,
+    list, dict, and left out — in an otherwise valid object.  Where the result is still a spec-valid
+    object the other suites judge it; where it is NOT, the property is silent (F-C09c): the constructor
+    of the fallback is compared with the Lean model INFORMATIONALLY (evidence notes) and the number of
+    inputs on which the two backends split is recorded."""
+
+    name = "member-kinds"
+    supplementary = True
+    mismatches: list = []
+    splits: collections.Counter = collections.Counter()
+    KINDS = [None, True, False, 0, 7, 0.5, "", "s", "7", [], [1], ["a"], {}, {"a": 1}, "<missing>"]
+
+    def cases(self, ctx, budget):
+        S = schema_h.schema()
+        G = gen()
+        out = []
+        for cid in protocol_classes(S):
+            rng = ctx.sub_rng(self.name, cid)
+            t = {"k": "ref", "cls": cid}
+            for f in S[cid]["fields"]:
+                base = G.obj(cid, rng, present={f["name"]}, extras="none")
+                if G.wire(f) not in base:
+                    continue
+                for v in self.KINDS:
+                    w = dict(base)
+                    if v == "<missing>":
+                        del w[G.wire(f)]
+                    else:
+                        w[G.wire(f)] = v
+                    if not py_conforms(S, t, w):
+                        out.append({"cls": cid, "member": G.wire(f), "wire": w, "forms": False})
+        if budget == "quick":
+            rng = ctx.sub_rng(self.name)
+            out = rng.sample(out, min(len(out), 800))
+        return out
+
+    def impl_batch(self, cases):
+        return schema_h.both("validate", [{"cls": c["cls"], "wire": c["wire"], "forms": False} for c in cases])
+
+    def model_line(self, case):
+        return {"m": "schema", "op": "validate", "cls": case["cls"], "j": schema_h.enc(case["wire"])}
+
+    def model_obs(self, out, case):
+        if "driver_error" in out:
+            return {"driver_error": out["driver_error"]}
+        m = {"ok": out["ok"]}
+        if out["ok"]:
+            m["dump"] = schema_h.dec(out["dump"])
+            m["tree"] = out["tree"]
+        return m
+
+    def compare(self, case, o, m):
+        p, f = o["pydantic"], o["fallback"]
+        if bool(p.get("ok")) != bool(f.get("ok")):
+            MemberKinds.splits["accepted by the fallback only" if f.get("ok") else "accepted by pydantic only"] += 1
+        diff = None
+        if "driver_error" in m:
+            diff = "driver error"
+        elif bool(f.get("ok")) != bool(m["ok"]):
+            diff = f"fallback {'accepts' if f.get('ok') else 'rejects'}, model {'accepts' if m['ok'] else 'rejects'}"
+        elif m["ok"] and (not schema_h.same(f.get("dump"), m["dump"]) or f.get("tree") != m.get("tree")):
+            diff = f"fallback gives {f.get('dump')!r}, model {m['dump']!r}"
+        if diff and len(MemberKinds.mismatches) < 20:
+            MemberKinds.mismatches.append(f"{case['cls']}.{case['member']} <- {core.canon(case['wire'].get(case['member'], '<missing>'))}: {diff}"[:300])
+        return None  # informational
+
+    def kind(self, case, o):
+        v = case["wire"].get(case["member"], "<missing>")
+        return f"member-kinds/{type(v).__name__ if v != '<missing>' else 'missing'}/" + ("accepted" if o["fallback"].get("ok") else "rejected")
